@@ -86,7 +86,9 @@ func (rt *runtime) cmplFunctionDeclaration(list []*nodeFunctionLiteral) {
 
 	for _, function := range list {
 		name := function.name
-		value := rt.cmplEvaluateNodeExpression(function)
+		// A function declaration has no scope of its own for its name: inside the body the
+		// name resolves to the binding created here (13, 10.5 step 5)
+		value := objectValue(rt.newNodeFunction(function, rt.scope.lexical))
 		if !stash.hasBinding(name) {
 			stash.createBinding(name, eval, value)
 		} else {
